@@ -172,6 +172,9 @@ func c01ExecAt(r *vf.Run, spec mb.Msg, path, failAt int) []finding {
 		if spec.Setters > 0 {
 			r.Outcome(fmt.Sprintf("reached/faithful/attributes-through-setters=%d", spec.Setters))
 		}
+		if spec.Donor > 0 {
+			r.Outcome(fmt.Sprintf("reached/faithful/files-from-a-recycled-msg=%d", spec.Donor))
+		}
 		for _, f := range append(append([]mb.File{}, spec.Attach...), spec.Embeds...) {
 			if f.Source != "" {
 				r.Outcome("reached/faithful/file-source=" + f.Source)
@@ -459,7 +462,7 @@ func c01Specs(thorough bool) []mb.Msg {
 				Embeds: []mb.File{{Name: "e.png", Content: bins[j]}}, Attach: []mb.File{{Name: "a.bin", Content: bins[(j+1)%len(bins)]}, {Name: "t.txt", Content: texts[i], Enc: "8bit"}}})
 		}
 	}
-	// the same programs with their attributes given through setters instead of options: message-level setters right
+	// the same programs with their files taken over from another Msg (SetEmbeds(other.GetEmbeds()) …) that is Reset, refilled and rendered afterwards; attributes given through setters instead of options: message-level setters right
 	// after NewMsg (1), everything set after the message has been assembled (2) — every 5th program (thorough: all)
 	n := len(specs)
 	for i := 0; i < n; i++ {
@@ -483,6 +486,18 @@ func c01Specs(thorough bool) []mb.Msg {
 			specs = append(specs, c)
 		}
 	}
+	// the same programs with their files taken over from another Msg that is recycled afterwards
+	for i := 0; i < n; i++ {
+		sp := specs[i]
+		if sp.Recycle != 0 || sp.Grow != 0 || sp.ReAdd || len(sp.Embeds)+len(sp.Attach) == 0 || (!thorough && i%3 != 0) {
+			continue
+		}
+		for d := 1; d <= 2; d++ {
+			c := sp
+			c.Donor = d
+			specs = append(specs, c)
+		}
+	}
 	return specs
 }
 
@@ -490,7 +505,7 @@ func init() {
 	vf.Register(&vf.Check{
 		ID: "C01", Title: "rendered MIME carries exactly the content the caller supplied",
 		Run: func(r *vf.Run) {
-			r.SetRule("builder programs in canonical order: 0..3 body parts × 0..2 embeds × 0..2 attachments × message encoding {QP, base64, 8bit} × file encoding {default base64, 8bit, QP via File.Enc} × per-part encodings/descriptions/content types/fixed boundary, contents rotated through a 25-entry text alphabet and an 18-entry binary alphabet (wrap points 57/58/75/76/77, dots, '=', boundary-like lines, bare CR/LF, all 256 byte values, 3000-byte binary); plus every single byte value in every encoding; plus files supplied through AttachReader/EmbedReader (memory recycled by the caller afterwards; one scratch buffer refilled per file) and Attach/EmbedReadSeeker, both also on a source that stands behind a header the caller has consumed already; bodies and files produced from text/html templates; part contents replaced through Part.SetContent; attributes given through setters instead of options (Msg.SetEncoding / SetCharset / SetBoundary after NewMsg, or everything — incl. Part.SetContentType / SetEncoding / SetCharset / SetDescription — after the message was assembled); messages rendered while still incomplete and completed afterwards; each program is rendered through WriteTo, WriteToFile onto an existing longer file, NewReader, Write, WriteToTempFile, a second WriteTo of the same Msg, a WriteTo that follows one into a sink failing at 1/8..7/8 of the rendering, and WriteToSendmailWithContext into a program that stores its input; each rendering is re-read by the harness' own MIME reader and compared leaf by leaf; distinct by program")
+			r.SetRule("builder programs in canonical order: 0..3 body parts × 0..2 embeds × 0..2 attachments × message encoding {QP, base64, 8bit} × file encoding {default base64, 8bit, QP via File.Enc} × per-part encodings/descriptions/content types/fixed boundary, contents rotated through a 25-entry text alphabet and an 18-entry binary alphabet (wrap points 57/58/75/76/77, dots, '=', boundary-like lines, bare CR/LF, all 256 byte values, 3000-byte binary); plus every single byte value in every encoding; plus files supplied through AttachReader/EmbedReader (memory recycled by the caller afterwards; one scratch buffer refilled per file) and Attach/EmbedReadSeeker, both also on a source that stands behind a header the caller has consumed already; bodies and files produced from text/html templates; part contents replaced through Part.SetContent; files taken over from another Msg (SetEmbeds(other.GetEmbeds()) …) that is Reset, refilled and rendered afterwards; attributes given through setters instead of options (Msg.SetEncoding / SetCharset / SetBoundary after NewMsg, or everything — incl. Part.SetContentType / SetEncoding / SetCharset / SetDescription — after the message was assembled); messages rendered while still incomplete and completed afterwards; each program is rendered through WriteTo, WriteToFile onto an existing longer file, NewReader, Write, WriteToTempFile, a second WriteTo of the same Msg, a WriteTo that follows one into a sink failing at 1/8..7/8 of the rendering, and WriteToSendmailWithContext into a program that stores its input; each rendering is re-read by the harness' own MIME reader and compared leaf by leaf; distinct by program")
 			r.Assume("file media types without WithFileContentType are those of mime.TypeByExtension", "charset of text parts is the default UTF-8", "NUL bytes are not text")
 			specs := c01Specs(r.Thorough)
 			r.Extra("programs", len(specs))
@@ -557,7 +572,7 @@ func init() {
 			for _, n := range c01Paths {
 				r.Reached("reached/faithful/via=" + n)
 			}
-			r.Reached("reached/faithful/file-source=reader", "reached/faithful/file-source=readseeker", "reached/faithful/attributes-through-setters=1", "reached/faithful/attributes-through-setters=2", "reached/faithful/file-source=buffer", "reached/faithful/file-source=reader@", "reached/faithful/file-source=readseeker@", "reached/faithful/file-source=ttpl", "reached/faithful/file-source=htpl",
+			r.Reached("reached/faithful/file-source=reader", "reached/faithful/file-source=readseeker", "reached/faithful/files-from-a-recycled-msg=1", "reached/faithful/files-from-a-recycled-msg=2", "reached/faithful/attributes-through-setters=1", "reached/faithful/attributes-through-setters=2", "reached/faithful/file-source=buffer", "reached/faithful/file-source=reader@", "reached/faithful/file-source=readseeker@", "reached/faithful/file-source=ttpl", "reached/faithful/file-source=htpl",
 				"reached/faithful/part-via=string", "reached/faithful/part-via=tpl", "reached/faithful/part-via=setcontent")
 		},
 		Replay: func(r *vf.Run, kase json.RawMessage) {
